@@ -37,7 +37,7 @@ fn two_forms(g: &mut G, ctx: &RunCtx) -> RunReport {
             ))
         })),
     );
-    let mk_plan = |f: &reqgen::FormSpec| ReqPlan { method: "POST".into(), path: "/upload".into(), url_query: vec![], params: vec![], params_batch: false, headers: vec![], auth: Auth::None, body: BodySpec::Multipart(f.clone()) };
+    let mk_plan = |f: &reqgen::FormSpec| ReqPlan { method: "POST".into(), path: "/upload".into(), url_query: vec![], params: vec![], params_batch: false, headers: vec![], auth: Auth::None, body: BodySpec::Multipart(f.clone()), api: 0 };
     let url = format!("http://{}/upload", bodyx::HOST_IP);
     let f1 = form1.clone();
     let f2 = form2.clone();
@@ -111,6 +111,7 @@ pub fn scenario(g: &mut G, ctx: &RunCtx) -> RunReport {
         },
         auth: Auth::None,
         body: BodySpec::Multipart(form.clone()),
+        api: g.below(4) as u8,
     };
     let (faults, fname) = gen_write_faults(g);
     let mut script = Script::default();
@@ -118,7 +119,7 @@ pub fn scenario(g: &mut G, ctx: &RunCtx) -> RunReport {
     script.acts.push(Act::Fin);
     let url = plan.url(&format!("http://{}", bodyx::HOST_IP));
     let ran = bodyx::run_origin(&script, &faults, ctx, || {
-        let rb = attohttpc::RequestBuilder::new(attohttpc::Method::POST, &url);
+        let rb = plan.new_builder(&url);
         match plan.send(rb) {
             Ok(resp) => resp.bytes().map(|_| ()).map_err(|e| format!("body:{}", err_kind(&e))),
             Err(e) => Err(err_kind(&e)),
